@@ -21,6 +21,8 @@ claimed = {
              note="io.Writer obeys 0<=n<=len(p) and does not modify p; the step from these clauses to the property's wording (retry of the remainder) is a meta-argument over the proved k/l/n clauses of C17.", tech="contract-based deductive verification: WP/VC generation over the typed Go AST (lzvc), SMT discharge (z3/cvc5)", ref="DESIGN.md §4 C18"),
  "C13": dict(cat="other", text="For HP, BHP, DHP, BDHP and BUP the ghost-client lemmas lemmaReset<P> (real Go functions calling s.Reset(data) on the concrete parser type, verified against the contract of the method that really runs, promoted methods included) prove that after a successful Reset every field a later Parse reads is exactly what a new parser has after Reset(data): W == Off == 0, Data == data byte for byte, every hash-table / bucket / index entry zero, configuration and invariant unchanged; init proves the same table state for a new parser. Reset is accepted iff len(data) <= BufferSize. DHP/BDHP kept their tables across Reset (genuine defect, fixed). NOT under contract: GSAP, OSAP; 'equal state implies equal blocks' and the goroutine-schedule clause rest on a frame argument (every write of the verified functions is inside their modifies clause, no package-level mutable state) that is not mechanised here.",
              note="State equality is up to array identity and capacity; margin bytes beyond len(Data) are not compared; engine semantics; solver soundness.", tech="contract-based deductive verification: WP/VC generation over the typed Go AST (lzvc), ghost-client lemma functions, SMT discharge (z3/cvc5)", ref="DESIGN.md §4 C13"),
+ "C08": dict(cat="other", text="WrappedParser.Parse is verified against an interface contract of lz.Parser stated over a ghost model of the parser (absolute parse position, absolute end of buffered data, retained history, BufferSize, ShrinkSize) and a ghost model of the reader (bytes delivered, number of Read calls, byte count and error of the last call). Proved for all inputs, chunkings and fault placements: a nil error means n >= 1 bytes consumed at the parse position; an error is returned only when the position equals the end of everything read (every byte delivered before the failure has been handed out), it is the error of a Read call made during this very call that delivered 0 bytes (so a recovered reader is asked again; nothing is sticky), the bytes appended equal the bytes the reader delivered (count; order and content by the C15 clause of ReadFrom), the loop runs at most twice, and panic(\"unexpected ErrFullBuffer\") is unreachable. For HP, BHP, DHP, BDHP and BUP the lemmas lemmaModel{Parse,Shrink,ReadFrom,Reset}<P> prove that the methods that really run satisfy the interface clauses with the model replaced by the concrete fields (both generated from one template). ReadFrom fills the buffer until it is full or the reader fails, so buffer contents depend on the concatenation of the chunks only. ShrinkSize == BufferSize was accepted and made Wrap panic (genuine defect, fixed). NOT under contract: GSAP, OSAP refinements; 'equal buffer states give equal blocks' is the determinism argument of C13.",
+             note="io.Reader: 0<=n<=len(p), does not return lz.ErrFullBuffer; int64 offsets mathematical; engine semantics; solver soundness; invariant induction over histories not mechanised.", tech="contract-based deductive verification: WP/VC generation over the typed Go AST (lzvc), interface contract over a ghost model with per-type refinement lemmas, SMT discharge (z3/cvc5)", ref="DESIGN.md §4 C08"),
  "C01": dict(cat="other", text="For HP, BHP, DHP, BDHP and BUP, Parse is verified against a contract with a ghost certificate of the block: chain maps (g_ga: buffer position, g_gl: literal index of every sequence), per-literal positions g_lp with Literals[x] == Data[g_lp[x]] for every literal byte and g_lp[g_gl[t]+u] == g_ga[t]+u for every sequence, trailing literals included; Data, Off and the configuration are unchanged and the buffer operations (Write, ReadFrom, Reset, Shrink) keep the buffer a faithful window of the stream (C15). NOT yet under contract: the match clause (bytes of a match equal the bytes Offset back), GSAP and OSAP; the step from the certificate to 'a plain expander reproduces the input' is bridge lemma B1 (not mechanised).",
              note="Assumes caller's blk.Literals does not alias the parser buffer (and the bucket index array); reflect-based config helpers are outside; engine semantics; solver soundness.", tech="contract-based deductive verification: WP/VC generation over the typed Go AST (lzvc), SMT discharge (z3/cvc5)", ref="DESIGN.md §4 C01"),
  "C02": dict(cat="other", text="For HP, BHP, DHP, BDHP and BUP every emitted sequence is proved to satisfy 1 <= Offset <= WindowSize, Offset <= position of the match in the buffer (hence <= stream bytes before it), MatchLen >= min(3, InputLen), Aux == 0 and g_gl[t]+LitLen <= len(Literals) (LitLen never claims more literals than the block carries), for all inputs, accepted configurations and buffer states satisfying the parser invariant. GSAP and OSAP are not yet under contract.",
